@@ -82,9 +82,11 @@ package cronschedule
 //@ pure jcKey(jc *execution.JobConfig) string = nsname(jc.Namespace, jc.Name)
 
 // the dynamic cron configuration may fail to load at any call
+// ASSUMED: admission and the scheduler read the same cron configuration (curCronKind is the parser kind it denotes)
 //@ extern func iface github.com/furiko-io/furiko/pkg/execution/util/cronschedule.Config.Cron
 //@   params recv
-//@   ensures result1 == nil ==> result0 != nil
+//@   ensures result1 == nil ==> result0 != nil && cron.kindOfCfg(result0) == curCronKind()
+//@   ensures result1 != nil ==> errclass(result1) == 700
 
 //@ func getTimezone
 //@   requires cronSchedule != nil && cfg != nil
@@ -99,6 +101,20 @@ package cronschedule
 //@   ensures [C01,C03] scheduled-expression: scheduled(jobConfig) && result2 == nil ==> result0 != nil && result1 != nil
 //@        && result0 == cron.parsedExpr(jobConfig.Spec.Schedule.Cron, parser, jcKey(jobConfig))
 //@   ensures [C17] fails-only-on-parse-or-config: scheduled(jobConfig) && result2 != nil ==> result0 == nil && result1 == nil
+//@   ensures [C17] accepted-schedule-loads-unless-config-unavailable: scheduled(jobConfig) && parser != nil && cron.pkind(parser) == curCronKind()
+//@        && cron.cronAccepted(jobConfig.Spec.Schedule.Cron, curCronKind()) && result2 != nil
+//@        ==> errclass(result2) == 700 || (jobConfig.Spec.Schedule.Cron.Timezone == "" && errclass(result2) == 702)
+
+// one JobConfig of the initial load (cronschedule.New returns the first error of its items, aborting the whole load):
+// an accepted schedule never produces one, except when the configuration itself is unavailable or its default timezone is bad
+//@ func Schedule.newItem
+//@   tags C17
+//@   requires s != nil && jobConfig != nil && cfg != nil
+//@   modifies clock
+//@   ensures [C17] accepted-schedule-never-aborts-the-load: parser != nil && cron.pkind(parser) == curCronKind()
+//@        && (scheduled(jobConfig) ==> cron.cronAccepted(jobConfig.Spec.Schedule.Cron, curCronKind())) && result1 != nil
+//@        ==> errclass(result1) == 700 || (scheduled(jobConfig) && jobConfig.Spec.Schedule.Cron.Timezone == "" && errclass(result1) == 702)
+//@   ensures [C03] unscheduled-has-no-item: !scheduled(jobConfig) ==> result0 == nil && result1 == nil
 
 //@ func Schedule.Bump
 //@   tags C01, C03
